@@ -91,6 +91,100 @@ theorem C08_no_fault_of_queue_ok (p : Proc N) (prog : List (Instr N)) (hwf : wfP
     · rw [e] at h; exact hq.1 h
     · rw [e] at h; exact hq.2 h
 
+/-! ## Clauses 2 and 3: a stall error means genuine dead-lock
+
+`Spec.frozen` is phrased on the diagram. `Lemmas/Termination.lean` reads it through the run: for the reachable state
+whose table is the first `k` rows of the diagram, `frozen` of the last of these rows says `Term.FrozenRec` of the
+state's record and issue count (`Term.frozen_prefix_iff`: the row is the state's record, `issuedBy` is its issue
+count), and `FrozenRec` records are exactly the fixed points of the cycle (`Term.fixed_frozen`, `Term.frozen_fixed`).
+
+The clause of `frozen` about data-stalled instructions (`mustWait`) is the business of property C02 (exactness of data
+stalls, register-queue invariant — `Lemmas/Hazards.lean`). It enters as an explicit hypothesis:
+
+* clause 2 needs exactness for the **unrecorded** stall-detecting cycle — `frozen_D_clause` below, which no statement
+  about the recorded rows (such as `Spec.C02`) can provide;
+* clause 3 needs exactness on the recorded rows only, i.e. the conclusion of C02's theorem,
+  `(Spec.C02 (ctx p prog tbl stalled)).ok = true`.
+
+Everything else — no `U` in a frozen row, `S` blocked by full successors (memory can not be the reason: nothing
+entered anywhere), not at the output boundary, the next instruction fits no input port, and conversely — is proved
+here. FULL STATEMENT (still open only in the two `D` hypotheses):
+`wfProc p = true → Diagram p prog tbl stalled → (Spec.C08 (ctx p prog tbl stalled)).ok = true`. -/
+
+/-- **The `D` clause of "stall ⇒ frozen".** When the cycle run from a reachable state `s` reproduces its record (the
+stall error) and the register queues label a data-stalled instruction `D` again, the diagram `s.table.reverse` says
+the instruction must still wait after its last row. To be discharged from the register-queue invariant of C02. -/
+abbrev frozen_D_clause (p : Proc N) (prog : List (Instr N)) : Prop := Term.FrozenDClause p prog
+
+/-- **C08, clause 2 (partial: relative to `frozen_D_clause`).** The diagram carried by a stall error ends in a frozen
+row (if it has no row at all, the empty record is frozen). -/
+theorem C08_stall_frozen_partial (p : Proc N) (prog : List (Instr N)) (tbl : List (Util N)) (stalled : Bool)
+    (hwf : wfProc p = true) (hD : frozen_D_clause p prog) (h : Diagram p prog tbl stalled) :
+    ((Spec.C08 (ctx p prog tbl stalled)).getD 1 ("", false)).2 = true := by
+  simp only [Spec.C08, List.getD_cons_succ, List.getD_cons_zero, Bool.or_eq_true, Bool.not_eq_true']
+  cases stalled with
+  | false => exact Or.inl rfl
+  | true => exact Or.inr (stall_frozen hwf hD h)
+
+/-- **C08, clause 3 (partial: relative to the conclusion of C02's theorem for the same diagram).** No recorded cycle
+started from a frozen row: the row before any recorded cycle (the empty record before the first) is not frozen. -/
+theorem C08_no_earlier_frozen_partial (p : Proc N) (prog : List (Instr N)) (tbl : List (Util N)) (stalled : Bool)
+    (hwf : wfProc p = true) (hC02 : (Spec.C02 (ctx p prog tbl stalled)).ok = true)
+    (h : Diagram p prog tbl stalled) :
+    ((Spec.C08 (ctx p prog tbl stalled)).getD 2 ("", false)).2 = true := by
+  have hC := DExact_of_C02 _ hC02
+  simp only [Spec.C08, List.getD_cons_succ, List.getD_cons_zero, Bool.and_eq_true, Bool.or_eq_true,
+    Bool.not_eq_true', List.all_eq_true, List.mem_range, beq_iff_eq]
+  constructor
+  · by_cases hT : (ctx p prog tbl stalled).T = 0
+    · exact Or.inl (Or.inr hT)
+    · right
+      have : 0 < tbl.length := Nat.pos_of_ne_zero hT
+      exact not_frozen_before hwf h hC this
+  · intro t ht
+    have ht' : t + 1 < tbl.length := by
+      have : (ctx p prog tbl stalled).T = tbl.length := rfl
+      omega
+    have := not_frozen_before hwf h hC ht'
+    simpa [prevIdx] using this
+
+/-- **C08 (partial: relative to the two `D` hypotheses).** Every diagram of a well-formed processor passes the C08
+checker. -/
+theorem C08_partial (p : Proc N) (prog : List (Instr N)) (tbl : List (Util N)) (stalled : Bool)
+    (hwf : wfProc p = true) (hD : frozen_D_clause p prog)
+    (hC02 : (Spec.C02 (ctx p prog tbl stalled)).ok = true) (h : Diagram p prog tbl stalled) :
+    (Spec.C08 (ctx p prog tbl stalled)).ok = true := by
+  have h1 := C08_bound_clause p prog tbl stalled h
+  have h2 := C08_stall_frozen_partial p prog tbl stalled hwf hD h
+  have h3 := C08_no_earlier_frozen_partial p prog tbl stalled hwf hC02 h
+  simp only [Spec.C08, List.getD_cons_succ, List.getD_cons_zero] at h1 h2 h3
+  simp only [Spec.C08, Clauses.ok, List.all_cons, List.all_nil, Bool.and_true]
+  rw [h1, h2, h3]; rfl
+
+/-! ### Readable forms of the two directions (no hypothesis about `D` needed to *state* them) -/
+
+/-- **stall ⇒ frozen, on the run.** In the state from which the stall error is raised nobody is unstalled, every `S`
+is away from the output boundary with all supporting successors full, every `D` is refused again by the register
+queues, and the next instruction (if any) finds every supporting input port full. -/
+theorem C08_stall_frozenRec (p : Proc N) (prog : List (Instr N)) (tbl : List (Util N))
+    (hwf : wfProc p = true) (h : Diagram p prog tbl true) :
+    ∃ s, Reach p prog s ∧ tbl = s.table.reverse ∧ runCycle p prog s = .ok none ∧
+      FrozenRec p prog s.util s.entered (fun u x => labelOf prog s.queues u (s.util.get u.name) x.idx = .D) := by
+  obtain ⟨s, hs, ht, hr, _⟩ := Diagram_reach h
+  exact ⟨s, hs, ht, hr rfl, fixed_frozen hwf (hs.termInv hwf) (hr rfl)⟩
+
+/-- **frozen ⇒ stall, on the run.** A reachable state whose record is frozen — `D` clause: the relabelled record does
+not show the instruction unstalled — makes no productive cycle. -/
+theorem C08_frozenRec_stalls (p : Proc N) (prog : List (Instr N)) (hwf : wfProc p = true) {s s' : SimState N}
+    (hs : Reach p prog s) (hr : runCycle p prog s = .ok (some s')) :
+    ¬ FrozenRec p prog s.util s.entered (fun u x => ∀ l, (⟨x.idx, l⟩ : HI) ∈ s'.util.get u.name → l ≠ .U) := by
+  intro hf
+  obtain ⟨lab, qs, hlab, _, hb, e⟩ := runCycle_eq_some hr
+  have : s'.util = lab.1 := by rw [e]
+  rw [this] at hf
+  rw [frozen_fixed hwf (hs.termInv hwf) hlab hf] at hb
+  cases hb
+
 /-! ## Non-vacuity
 
 Input port `0` (width 1, capabilities `7` and `8`, both locks) feeding output port `1` (width 1, capability `7`).
@@ -119,5 +213,32 @@ example : kind (simulate proc progStall) = (1, 3) := by decide
 example : cycleBound proc progStall = 22 := by decide
 
 end C08Example
+
+/-! A stall with a data-stalled instruction in the frozen row (a dead-locking overtake): input ports `0` (capability
+`7`) and `2` (capability `8`), internal unit `1` (capability `7`, fed by `0`), output port `3` (width 1, both
+capabilities, both locks, fed by `1` and `2`). Instruction 1 (capability `8`) reads the register instruction 0
+(capability `7`) writes; it overtakes instruction 0, waits in unit `3` for ever (`D`), and keeps instruction 0 out
+(`S` in unit `1`). The stall diagram passes the whole C08 checker (and C02's). -/
+namespace C08Example2
+
+def i7 : UnitM Nat := ⟨0, 1, [7], false, false, []⟩
+def m1 : UnitM Nat := ⟨1, 1, [7], false, false, []⟩
+def i8 : UnitM Nat := ⟨2, 1, [8], false, false, []⟩
+def w : UnitM Nat := ⟨3, 1, [7, 8], true, true, []⟩
+def proc : Proc Nat := { inPorts := [i7, i8], outPorts := [⟨w, [1, 2]⟩], inOut := [], internal := [⟨m1, [0]⟩] }
+def prog : List (Instr Nat) := [⟨[10], 11, 7⟩, ⟨[11], 12, 8⟩]
+
+example : wfProc proc = true := by decide
+
+/-- three recorded cycles, then the stall error; the last row holds instruction 1 `D` in unit `3` and instruction 0 `S`
+in unit `1` -/
+example : (match simulate proc prog with
+    | .stall tbl => tbl.length == 3 &&
+        (tbl.getD 2 ([] : List (Nat × List HI))).get 3 == [⟨1, .D⟩] &&
+        (tbl.getD 2 ([] : List (Nat × List HI))).get 1 == [⟨0, .S⟩] &&
+        (Spec.C08 (ctx proc prog tbl true)).ok && (Spec.C02 (ctx proc prog tbl true)).ok
+    | _ => false) = true := by decide
+
+end C08Example2
 
 end ProcSim
